@@ -1,3 +1,8 @@
+# ASan options of ./check plus a 16 MB quarantine: every evaluation builds and frees a Stepper, and
+# with the default 256 MB quarantine the freed memory is never reused (measured 6x slower, half
+# of it page-fault system time).  Use-after-free within the last 16 MB of frees is still caught.
+_ASAN = ("halt_on_error=0:detect_leaks=0:abort_on_error=0:handle_abort=0:allocator_may_return_null=1:"
+         "detect_stack_use_after_return=0:quarantine_size_mb=16")
 CHECK = {
     "level": "model_checking",
     "rule": ("explicit-state BFS over the real Stepper<host> bookkeeping: transition = one Stepper "
@@ -10,7 +15,8 @@ CHECK = {
              "of pending initializers as charge classes, alive count); EVERY child of every expanded "
              "node is evaluated (one process, worker threads; the frontier is built in enumeration "
              "order); configurations: slots {1,2,3(,4)} x initializer capacity {S,2S,16} x track "
-             "order {none, init_charge, reindex_status, reindex_particle_type, reindex_shuffle}; every "
+             "order {none, init_charge, reindex_status, reindex_particle_type, reindex_shuffle}, the "
+             "subset and depth per tier as listed under bounds; every "
              "transition is followed by an all-die drain to queued=alive=0 and judged by a reference "
              "ledger (std::map) built from the public step stream: ids, parents, step counts, "
              "counters, species and start point of every child against the per-parent multiset of "
@@ -32,11 +38,18 @@ CHECK = {
         "depth bound per configuration as reported; 'fixpoint:<cfg>' tags mark configurations whose "
         "frontier emptied before the bound",
     ],
-    "bounds": {"quick": {"depth_S1": 5, "depth_S2": 3, "depth_S3": 2, "max_primaries": 3},
-               "thorough": {"depth_S<=2": 6, "depth_S3": 4, "depth_S4": 3, "max_primaries": 4}},
+    "bounds": {"quick": {"max_primaries": 3,
+                         "depth": {"S1,Q1|2 (5 orders)": 5, "S1,Q16 (5 orders)": 4,
+                                   "S2,Q2 (none,init_charge,reindex_status)": 4,
+                                   "S2,Q4 (none,init_charge)": 2, "S3,Q3 (none)": 2}},
+               "thorough": {"max_primaries": 4,
+                            "depth": {"S1,Q1|2|16 (5 orders)": 6, "S2,Q2|4 (5 orders)": 6,
+                                      "S2,Q16 (none,init_charge)": 3, "S2,Q16 (reindex_*)": 2,
+                                      "S3,Q3 (5 orders)": 2, "S3,Q6 (none,init_charge)": 2,
+                                      "S3,Q16 (none)": 2, "S4,Q8 (none)": 2}}},
     "parts": [
-        {"name": "tracks", "harness": "c02_tracks", "flavour": "asan",
-         "shards": {"quick": 1, "thorough": 1}, "deadline": {"quick": 100, "thorough": 1200}},
+        {"name": "tracks", "harness": "c02_tracks", "flavour": "asan", "env": {"ASAN_OPTIONS": _ASAN},
+         "shards": {"quick": 1, "thorough": 1}, "deadline": {"quick": 100, "thorough": 900}},
     ],
 }
 META = {
